@@ -15,10 +15,26 @@ pub struct C18;
 type Canon = Vec<(Vec<u8>, Vec<Option<Vec<u8>>>)>;
 
 fn run_server(ctx: &mut Ctx, t: u32, epoch: &str, msgs: &[Message], threads: usize) -> Result<Canon, Violation> {
-    let pool = rayon::ThreadPoolBuilder::new().num_threads(threads).build().map_err(|e| Violation::new("c18.setup", "pool", e.to_string()))?;
+    let pool = rayon::ThreadPoolBuilder::new().num_threads(threads).start_handler(|_| crate::runner::set_quiet(true)).build().map_err(|e| Violation::new("c18.setup", "pool", e.to_string()))?;
     let srv = AggregationServer::new(t, epoch);
+    if t >= 2 && !msgs.is_empty() && ctx.ch.chance(1, 4) {
+        // A refused collection first, on the SAME worker threads: buckets that reach the threshold in size but
+        // hold one report replayed t times. The reference server refuses such a collection by panicking
+        // (PossibleShareCollision, see assumptions); the operator survives that and submits the honest
+        // collection next, whose result must not depend on what went before.
+        let n_b = (1 + ctx.ch.index(2 * threads)).min(msgs.len());
+        let mut refused: Vec<Message> = Vec::new();
+        for b in 0..n_b {
+            let i = (ctx.ch.index(msgs.len()) + b) % msgs.len();
+            for _ in 0..t {
+                refused.push(msgs[i].clone());
+            }
+        }
+        if guarded(|| pool.install(|| srv.retrieve_outputs(&refused))).is_err() {
+            ctx.stats.fault("refused_collection_before_honest_one");
+        }
+    }
     let out = guarded(|| pool.install(|| srv.retrieve_outputs(msgs))).map_err(|(loc, msg)| Violation::new("c18.panic", "retrieve_outputs", format!("retrieve_outputs panicked on honest reports at {}: {}", loc, msg)))?;
-    let _ = ctx;
     // canonical form: HashMap iteration order and rayon scheduling are not under simulator control
     let mut canon: Canon = out
         .into_iter()
@@ -192,7 +208,7 @@ impl Property for C18 {
         vec!["network", "clock", "OS entropy source", "client driver"]
     }
     fn assumptions(&self) -> Vec<&'static str> {
-        vec!["duplicated deliveries are excluded (a sub-threshold bucket padded with copies makes the reference server panic on PossibleShareCollision: C02's subject, observed and documented)", "empty aux is compared as absent aux (the reference server maps empty to None by construction)", "HashMap order and rayon scheduling are uncontrolled; neutralised by canonical ordering and covered by the determinism self-test"]
+        vec!["duplicated deliveries are excluded from the collections whose OUTPUT is compared (a bucket padded with copies makes the reference server panic on PossibleShareCollision: C02's subject, observed and documented); such a refused collection is submitted, as a fault, BEFORE the honest one on the same worker threads in a quarter of the server runs", "empty aux is compared as absent aux (the reference server maps empty to None by construction)", "HashMap order and rayon scheduling are uncontrolled; neutralised by canonical ordering and covered by the determinism self-test"]
     }
     fn key_probes(&self) -> Vec<&'static str> {
         vec!["server_runs_checked", "groups_revealed", "two_pool_sizes_compared", "pool_of_one", "batches_of_256_or_more_reports"]
